@@ -16,7 +16,7 @@ from .endpoints import Resp
 from .simnet import CALL
 from .world import (mk_pool, API, is_async, guarded, pool_counts, owned_transports, exc_name, documented)
 
-BEHAVIOURS = ["read", "read", "read", "head-only", "partial", "cancel", "timeout", "post", "bad-upload"]
+BEHAVIOURS = ["read", "read", "read", "head-only", "partial", "cancel", "timeout", "post", "bad-upload", "bad-head"]
 SERVER_MODES_H1 = ["keepalive", "keepalive", "keepalive", "chunked", "conn-close", "http10", "close-delimited"]
 
 
@@ -283,6 +283,10 @@ class Workload:
                 rec["got"] = await full()
             elif beh == "post":
                 rec["got"] = await full("POST", api.body([b"p" * 300, b"q" * 300]))
+            elif beh == "bad-head":
+                # a caller bug that is caught before anything is sent: an illegal header value
+                hdrs.append(("X-Bad", "a\nb"))
+                rec["got"] = await full()
             elif beh == "bad-upload":
                 # a caller bug: the body does not match the declared Content-Length (too short or too long); the
                 # head - and the first chunk - are on the wire when the library notices
